@@ -39,7 +39,7 @@ let cmd_exodus = function
   | L [v; bl; w] ->
       let blocks = list_of_sx table_of_sx bl in
       ignore v;
-      L [ sx_of_table (c01_exodus blocks); sx_of_table (c01_exodus_fixed (nat_of_int (int_of_sx w)) blocks) ]
+      L [ sx_of_table (c01_exodus (nat_of_int (int_of_sx w)) blocks) ]
   | _ -> failwith "exodus: (coord2d blocks w)"
 
 let cmd_exodus_coords = function
